@@ -41,7 +41,7 @@ def random_history(rnd: random.Random, big: bool) -> dict:
         base = rnd.choice([0, 0x1FF, 0x200, 0x8000, 0x7FFFFF, EOF - ln, EOF - 0x200 - ln, EOF - 0xFFFF, EOF - 0xFFFF - 0x200,
                            EOF - 1, EOF + 1, LIM - ln, LIM - ln - 0x200, rnd.randrange(0, LIM)])
         ws.append({"addr": max(-1, base + rnd.choice([-1, 0, 0, 0, 1])), "len": ln, "seed": rnd.randrange(256),
-                   "step": rnd.choice([1, 3, 7, 255])})
+                   "step": rnd.choice([1, 3, 7, 255, 0, 0])})       # step 0: a block of identical bytes
     return {"header": rnd.random() < 0.5, "writes": ws}
 
 
@@ -87,6 +87,10 @@ def run(ctx) -> None:
                 cases.append({"header": hdr, "writes": [dict(A), dict(B), dict(A)]})
                 cases.append({"header": hdr, "writes": [dict(A), dict(B), dict(A), dict(B)]})
             cases.append({"header": hdr, "writes": [dict(A), dict(A)]})
+        # blocks of identical bytes (a writer may choose run-length records) at and around the EOF address
+        for ln in (3, 4, 5, 300, 65535, 65536):
+            for a in (EOF - (0x200 if hdr else 0), EOF - (0x200 if hdr else 0) - 1, 0x8000, EOF - (0x200 if hdr else 0) - ln):
+                cases.append({"header": hdr, "writes": [{"addr": a, "len": ln, "seed": 0x77, "step": 0}, {"addr": 0x9000, "len": 2, "seed": 1, "step": 1}]})
         cases.append({"header": hdr, "writes": []})
         cases.append({"header": hdr, "writes": [{"addr": 0x8000, "len": 0, "seed": 0, "step": 1}]})
     res = Pool().map("ips_write", cases, timeout=120)
